@@ -2,6 +2,7 @@
 The implementation side of the correspondence: runs the real `jsonschema` from the
 working tree of the repository in-process and canonicalises what it observes.
 """
+import copy
 import os
 import sys
 import warnings
@@ -47,11 +48,14 @@ _unset = E._unset
 def err_json(e):
     """same shape as Codec.encErr, with the message rendered"""
     unset = (e.validator is _unset and e.validator_value is _unset and e.instance is _unset and e.schema is _unset)
+    # the four fields are set together (`_set`); a field left unset while others are set is shown as such
+    # (never on the unchanged code), so that an unset field and a JSON null are told apart
+    miss = {"$unset": True}
     info = None if unset else {
-        "kw": None if e.validator is _unset else e.validator,
-        "kwVal": None if e.validator_value is _unset else e.validator_value,
-        "inst": None if e.instance is _unset else e.instance,
-        "schema": None if e.schema is _unset else e.schema,
+        "kw": miss if e.validator is _unset else e.validator,
+        "kwVal": miss if e.validator_value is _unset else e.validator_value,
+        "inst": miss if e.instance is _unset else e.instance,
+        "schema": miss if e.schema is _unset else e.schema,
     }
     return {
         "msg": e.message,
@@ -105,7 +109,7 @@ class World:
         self.log.append([uri, ok])
         if not ok:
             raise ScenarioError("cannot fetch %s" % uri)
-        return self.docs[uri]
+        return copy.deepcopy(self.docs[uri])      # a fresh object per retrieval, as json.loads of a response is
 
     def answer(self, n, uri):
         """oracle answer for attempt number n (pure)"""
